@@ -268,6 +268,7 @@ pub fn run(tier: Tier, seed: u64) -> i32 {
     ev.floor("pool sizes", ev.set_len("pools") as u64, tier.pick(8, 17));
     ev.floor("poly ops", ev.bucket_get("poly.cases"), 200);
     ev.floor("closed form in-domain points", ev.bucket_get("closed.in_domain"), 20);
+    ev.floor("vanishing-over-coset evaluations at degrees that are not a power of two", ev.bucket_get("closed.vanishing_coset.non_pow2_degree"), 500);
     ev.finish()
 }
 
@@ -730,31 +731,51 @@ fn closed_forms(ev: &Ev, tier: Tier, seed: u64) {
             }
             Err(e) => ev.violation(&format!("C19:fused-lagrange-pi:panic:{}", panic_site(&e)), json!({"case": desc, "error": e})),
         }
-        // vanishing polynomial over the coset of the 8x domain
+        // X^d - 1 over the coset of the 8x domain: the degree the prover uses
+        // (d = size) and every other admissible degree class (the kernel is
+        // specified for any d below the domain size)
         let big = size * 8;
         let wb = rf::root_of_unity(big);
-        match guard(|| dv::compute_vanishing_poly_over_coset(big, size as u64)) {
-            Ok(Ok(g)) => {
-                let mut x = GENERATOR;
-                let mut ok = g.len() == big;
-                for gi in g.iter() {
-                    ok &= *gi == rf::pow(&x, size as u64) - BlsScalar::one();
-                    x *= wb;
+        let mut degrees: Vec<u64> = vec![size as u64, 0, 1, 3, big as u64 - 1, (big / 2) as u64, 1 + rng.next_u64() % (big as u64 - 1), 1 + rng.next_u64() % (big as u64 - 1)];
+        if size >= 4 {
+            degrees.push(size as u64 - 1);
+            degrees.push(size as u64 + 1);
+            degrees.push(3 * size as u64);
+            degrees.push(6 * size as u64);
+        }
+        degrees.retain(|d| *d < big as u64);
+        degrees.dedup();
+        for d in degrees {
+            ev.bucket(if d == size as u64 { "closed.vanishing_coset.prover_degree" } else if d.is_power_of_two() || d == 0 { "closed.vanishing_coset.other_pow2_degree" } else { "closed.vanishing_coset.non_pow2_degree" });
+            match guard(|| dv::compute_vanishing_poly_over_coset(big, d)) {
+                Ok(Ok(g)) => {
+                    let mut x = GENERATOR;
+                    let mut ok = g.len() == big;
+                    for gi in g.iter() {
+                        ok &= *gi == rf::pow(&x, d) - BlsScalar::one();
+                        x *= wb;
+                    }
+                    if !ok {
+                        ev.violation("C19:vanishing-over-coset:value-mismatch", json!({"case": desc, "degree": d, "domain": big}));
+                    }
+                    // the matcher accepts the true vector (built from the definition) and rejects a perturbed one
+                    let mut truth = Vec::with_capacity(big);
+                    let mut x = GENERATOR;
+                    for _ in 0..big {
+                        truth.push(rf::pow(&x, d) - BlsScalar::one());
+                        x *= wb;
+                    }
+                    let t = dv::matches_vanishing_poly_over_coset(big, d, &truth).unwrap_or(false);
+                    let mut bad = truth.clone();
+                    let j = rng.next_u32() as usize % big;
+                    bad[j] += BlsScalar::one();
+                    let f = dv::matches_vanishing_poly_over_coset(big, d, &bad).unwrap_or(true);
+                    if !t || f {
+                        ev.violation("C19:matches-vanishing:wrong-decision", json!({"case": desc, "degree": d, "true_accepted": t, "perturbed_accepted": f}));
+                    }
                 }
-                if !ok {
-                    ev.violation("C19:vanishing-over-coset:value-mismatch", json!({"case": desc}));
-                }
-                // the matcher accepts the true vector and rejects a perturbed one
-                let t = dv::matches_vanishing_poly_over_coset(big, size as u64, &g).unwrap_or(false);
-                let mut bad = g.clone();
-                let j = rng.next_u32() as usize % big;
-                bad[j] += BlsScalar::one();
-                let f = dv::matches_vanishing_poly_over_coset(big, size as u64, &bad).unwrap_or(true);
-                if !t || f {
-                    ev.violation("C19:matches-vanishing:wrong-decision", json!({"case": desc, "true_accepted": t, "perturbed_accepted": f}));
-                }
+                other => ev.violation("C19:vanishing-over-coset:panic-or-err", json!({"case": desc, "degree": d, "got": format!("{:?}", other.map(|r| r.map(|v| v.len())))})),
             }
-            other => ev.violation("C19:vanishing-over-coset:panic-or-err", json!({"case": desc, "got": format!("{:?}", other.map(|r| r.map(|v| v.len())))})),
         }
         // linear polynomial over the coset
         let lin = rf::coset_dft(&[BlsScalar::zero(), BlsScalar::one()], big);
